@@ -10,6 +10,7 @@ import (
 	"crypto/x509/pkix"
 	"encoding/asn1"
 	"encoding/pem"
+	"errors"
 	"fmt"
 	"math/big"
 	"net"
@@ -43,6 +44,9 @@ type env struct {
 	mgr     *consul.CAManager
 	del     *consul.VerifCADelegate
 	serials map[string]string // serial -> what it was issued for
+	// fault injection on the raft applies the manager issues
+	applies int
+	failAt  int // fail the failAt-th apply from now (0: none)
 }
 
 type rootKey struct{ key, cert string }
@@ -56,18 +60,28 @@ func baseCfg(extra map[string]interface{}) *structs.CAConfiguration {
 }
 
 func newEnv(cfg *structs.CAConfiguration) (*env, error) {
+	e := newEnvIn(dc, nil)
+	e.mgr = consul.VerifNewCAManager(e.del, cfg)
+	return e, e.mgr.Initialize()
+}
+
+// newEnvIn builds the store/FSM/delegate of one datacenter; forward answers RPCs to the primary.
+func newEnvIn(datacenter string, forward func(method, dc string, args, reply interface{}) error) *env {
 	e := &env{w: world.New(), serials: map[string]string{}}
-	e.del = &consul.VerifCADelegate{DC: dc, Primary: dc,
+	e.del = &consul.VerifCADelegate{DC: datacenter, Primary: dc, ForwardFn: forward,
 		StoreFn: func() *state.Store { return e.w.Store() },
 		ApplyFn: func(t structs.MessageType, req interface{}) (interface{}, error) {
+			e.applies++
+			if e.failAt != 0 && e.applies == e.failAt {
+				return nil, errors.New("raft: leadership lost while committing log (injected)")
+			}
 			e.w.ApplyReq("ca-manager", t, req)
 			if err, ok := e.w.LastRaw.(error); ok && err != nil {
 				return nil, err
 			}
 			return e.w.LastRaw, nil
 		}}
-	e.mgr = consul.VerifNewCAManager(e.del, cfg)
-	return e, e.mgr.Initialize()
+	return e
 }
 
 // failover: a new leader's manager over the same replicated state.
@@ -92,7 +106,7 @@ func genRoot(name string) rootKey {
 	sn := new(big.Int).SetBytes([]byte("root-" + name))
 	tmpl := x509.Certificate{SerialNumber: sn, Subject: pkix.Name{CommonName: "verif root " + name},
 		URIs: []*url.URL{connect.SpiffeIDSigningForCluster(clusterID).URI()}, BasicConstraintsValid: true, IsCA: true,
-		KeyUsage: x509.KeyUsageCertSign | x509.KeyUsageCRLSign | x509.KeyUsageDigitalSignature,
+		KeyUsage:  x509.KeyUsageCertSign | x509.KeyUsageCRLSign | x509.KeyUsageDigitalSignature,
 		NotBefore: time.Now().Add(-time.Hour), NotAfter: time.Now().Add(87600 * time.Hour), AuthorityKeyId: keyID, SubjectKeyId: keyID}
 	bs, err := x509.CreateCertificate(rand.Reader, &tmpl, &tmpl, k.Public(), k)
 	if err != nil {
@@ -214,7 +228,16 @@ func tokens() []token {
 		mk("node dc1+dc2 write", `node "dc1" { policy = "write" } node "dc2" { policy = "write" }`, func(k, n string) bool { return k == "agent" && (n == "dc1" || n == "dc2") }),
 		mk("node default write", `node "default" { policy = "write" } service "default" { policy = "write" }`, func(k, n string) bool { return (k == "agent" || k == "service") && n == "default" }),
 		mk("mesh write", `mesh = "write"`, func(k, n string) bool { return k == "mesh-gateway" }),
+		mk("mesh read", `mesh = "read"`, func(k, n string) bool { return false }),
+		// without a mesh rule the mesh permission falls back to the operator rule
+		mk("operator write", `operator = "write"`, func(k, n string) bool { return k == "mesh-gateway" }),
+		mk("operator read", `operator = "read"`, func(k, n string) bool { return false }),
+		mk("operator write + mesh read", `operator = "write" mesh = "read"`, func(k, n string) bool { return false }),
 		mk("acl write", `acl = "write"`, func(k, n string) bool { return k == "server" }),
+		mk("acl read", `acl = "read"`, func(k, n string) bool { return false }),
+		mk("node web read", `node "web" { policy = "read" }`, func(k, n string) bool { return false }),
+		mk("node_prefix w write", `node_prefix "w" { policy = "write" }`, func(k, n string) bool { return k == "agent" && strings.HasPrefix(n, "w") }),
+		mk("service web write but node web deny", `service "web" { policy = "write" } node "web" { policy = "deny" }`, func(k, n string) bool { return k == "service" && n == "web" }),
 		{"manage all", "<manage-all>", acl.ManageAll(), func(string, string) bool { return true }},
 		{"deny all", "<deny-all>", acl.DenyAll(), func(string, string) bool { return false }},
 	}
@@ -551,9 +574,21 @@ func managerPhase(c *ev.Ctx) {
 	var seqs, steps int64
 	outcomes := map[string]int{}
 	var rec func(prefix []int)
+	var faultRuns int64
+	var runF func(path []int, failAt int, init string) int
 	run := func(path []int) {
 		// initial configurations: generated root, or root A
 		for _, init := range []string{"generated", "A"} {
+			n := runF(path, 0, init)
+			// every raft apply of the last operation fails in turn
+			for k := 1; k <= n && len(path) > 0; k++ {
+				faultRuns++
+				runF(path, k, init)
+			}
+		}
+	}
+	runF = func(path []int, failAt int, init string) (applies int) {
+		{
 			cfg := baseCfg(nil)
 			if init == "A" {
 				cfg = keyed(A, nil)
@@ -564,12 +599,16 @@ func managerPhase(c *ev.Ctx) {
 				return
 			}
 			hist := []string{"initialize(" + init + ")"}
+			fullBefore, idxBefore := rootsFull(e)
 			check := func(opErr error, before string, beforeRoots structs.CARoots, cfgBefore string) {
 				steps++
 				sum, act, n, roots := rootsSummary(e)
 				h := strings.Join(hist, " ; ")
 				rp := map[string]any{"history": hist}
 				last := hist[len(hist)-1]
+				if full, idx := rootsFull(e); full != fullBefore && idx == idxBefore && before != "" {
+					c.Violate("C12:roots-changed-without-a-replicated-write", fmt.Sprintf("after %s (err=%v) the stored root set differs although the roots index is still %d", h, opErr, idx), rp)
+				}
 				if n != 1 {
 					c.Violate(fmt.Sprintf("C12:root-set-has-%d-active-roots", n), fmt.Sprintf("after %s the root set is {%s}", h, sum), rp)
 					return
@@ -611,19 +650,33 @@ func managerPhase(c *ev.Ctx) {
 				outcomes[fmt.Sprintf("%s err=%v", last, opErr != nil)]++
 			}
 			check(nil, "", nil, "")
-			for _, oi := range path {
+			for i, oi := range path {
 				before, _, _, broots := rootsSummary(e)
 				_, cfgB, _ := e.w.Store().CAConfig(nil)
 				cb := dump.Value(cfgB, &dump.Options{MaskIndexes: true, SkipFields: map[string]bool{".State": true}})
-				hist = append(hist, ops[oi].name)
+				fullBefore, idxBefore = rootsFull(e)
+				name := ops[oi].name
+				e.applies, e.failAt = 0, 0
+				if i == len(path)-1 && failAt > 0 {
+					e.failAt = failAt
+					name += fmt.Sprintf(" [raft apply #%d fails]", failAt)
+				}
+				hist = append(hist, name)
 				err := ops[oi].run(e)
+				if i == len(path)-1 {
+					applies = e.applies
+				}
+				e.failAt = 0
 				check(err, before, broots, cb)
 				if c.NumViolations() > 50 {
 					return
 				}
 			}
-			seqs++
+			if failAt == 0 {
+				seqs++
+			}
 		}
+		return applies
 	}
 	rec = func(prefix []int) {
 		if len(prefix) == depth {
@@ -635,11 +688,179 @@ func managerPhase(c *ev.Ctx) {
 		}
 	}
 	rec(nil)
+	c.Set("manager_fault_runs", faultRuns)
 	c.Set("manager_histories", seqs)
 	c.Set("manager_steps", steps)
 	c.Set("manager_ops", len(ops))
 	c.Set("manager_depth", depth)
 	c.Set("manager_outcomes", outcomes)
+}
+
+// ---- secondary datacenter: intermediates signed by the primary, raft failures at every apply ------------------------
+
+func rootsFull(e *env) (string, uint64) {
+	idx, roots, _ := e.w.Store().CARoots(nil)
+	return dump.Value(roots, &dump.Options{MaskIndexes: true, SkipFields: map[string]bool{".RotatedOutAt": true}}), idx
+}
+
+func secondaryPhase(c *ev.Ctx) {
+	B := genRoot("B2")
+	type sop struct {
+		name string
+		run  func(p, s *env) error
+	}
+	primaryRoots := func(p *env) structs.IndexedCARoots {
+		_, roots, _ := p.w.Store().CARoots(nil)
+		out := structs.IndexedCARoots{TrustDomain: connect.SpiffeIDSigningForCluster(clusterID).Host()}
+		for _, r := range roots {
+			cp := r.Clone()
+			if cp.Active {
+				out.ActiveRootID = cp.ID
+			}
+			out.Roots = append(out.Roots, cp)
+		}
+		return out
+	}
+	ops := []sop{
+		{"renew-intermediate", func(p, s *env) error { return s.mgr.VerifRenewIntermediateNow() }},
+		{"primary rotates to root B, secondary sees new roots", func(p, s *env) error {
+			cfg := baseCfg(map[string]interface{}{"PrivateKey": B.key, "RootCert": B.cert})
+			if err := p.mgr.UpdateConfiguration(&structs.CARequest{Datacenter: dc, Config: cfg}); err != nil {
+				return nil // the primary refused (already there): nothing for the secondary to see
+			}
+			return s.mgr.VerifSecondaryUpdateRoots(primaryRoots(p))
+		}},
+		{"secondary sees unchanged primary roots", func(p, s *env) error { return s.mgr.VerifSecondaryUpdateRoots(primaryRoots(p)) }},
+		{"secondary config change (leaf ttl 48h)", func(p, s *env) error {
+			return s.mgr.UpdateConfiguration(&structs.CARequest{Datacenter: "dc2", Config: baseCfg(map[string]interface{}{"LeafCertTTL": "48h"})})
+		}},
+		{"secondary leader failover", func(p, s *env) error { return s.failover() }},
+	}
+	depth := 2
+	if !c.Quick() {
+		depth = 3
+	}
+	leafCSR, _ := buildCSR(csrSpec{uris: []string{"spiffe://" + td + "/ns/default/dc/dc2/svc/web"}})
+	var histories, steps, faultRuns int64
+	build := func() (*env, *env, error) {
+		p, err := newEnv(baseCfg(nil))
+		if err != nil {
+			return nil, nil, err
+		}
+		s := newEnvIn("dc2", func(method, _ string, args, reply interface{}) error {
+			switch method {
+			case "ConnectCA.Roots":
+				*(reply.(*structs.IndexedCARoots)) = primaryRoots(p)
+				return nil
+			case "ConnectCA.SignIntermediate":
+				pem, err := p.mgr.VerifSignIntermediate(args.(*structs.CASignRequest).CSR)
+				if err != nil {
+					return err
+				}
+				*(reply.(*string)) = pem
+				return nil
+			}
+			return fmt.Errorf("unexpected forwarded method %s", method)
+		})
+		cfg := baseCfg(nil)
+		cfg.ClusterID = ""
+		s.mgr = consul.VerifNewCAManager(s.del, cfg)
+		return p, s, s.mgr.Initialize()
+	}
+	check := func(s *env, hist []string, opErr error, before string, beforeIdx uint64, afterInjectedFailure bool) {
+		steps++
+		h := strings.Join(hist, " ; ")
+		rp := map[string]any{"history": hist}
+		after, afterIdx := rootsFull(s)
+		if after != before && afterIdx == beforeIdx {
+			c.Violate("C12:secondary-roots-changed-without-a-replicated-write", fmt.Sprintf("after %s (err=%v) the stored root set differs although the roots index is still %d:\n%s\n->\n%s", h, opErr, afterIdx, before, after), rp)
+			return
+		}
+		_, act, n, _ := rootsSummary(s)
+		if n != 1 {
+			c.Violate(fmt.Sprintf("C12:secondary-root-set-has-%d-active-roots", n), "after "+h, rp)
+			return
+		}
+		if pr := s.mgr.VerifProviderRoot(); opErr == nil && (pr == nil || pr.ID != act.ID) {
+			c.Violate("C12:secondary-manager-signs-under-non-active-root", "after "+h, rp)
+		}
+		if afterInjectedFailure {
+			// a commit that failed half way may leave the provider ahead of the stored roots until the
+			// operation is retried; what is judged is the retry (below), not this intermediate moment
+			return
+		}
+		csr, _ := connect.ParseCSR(leafCSR)
+		ic, err := s.mgr.AuthorizeAndSignCertificate(csr, acl.ManageAll())
+		if err != nil {
+			return
+		}
+		for _, p := range s.checkIssued(ic, ident{kind: "service", dc: "dc2", name: "web", host: td}, "secondary leaf after "+hist[len(hist)-1]) {
+			c.Violate(p[0]+":secondary", p[1]+"\nhistory: "+h, rp)
+		}
+	}
+	var rec func(path []int)
+	runPath := func(path []int, failAt int) (applies int) {
+		p, s, err := build()
+		if err != nil {
+			c.HarnessError("secondary CA initialize: " + err.Error())
+			return 0
+		}
+		hist := []string{"primary+secondary initialized"}
+		b0, i0 := rootsFull(s)
+		check(s, hist, nil, b0, i0-1, false)
+		for i, oi := range path {
+			before, beforeIdx := rootsFull(s)
+			last := i == len(path)-1
+			s.applies, s.failAt = 0, 0
+			if last && failAt > 0 {
+				s.failAt = failAt
+			}
+			name := ops[oi].name
+			if last && failAt > 0 {
+				name += fmt.Sprintf(" [raft apply #%d fails]", failAt)
+			}
+			hist = append(hist, name)
+			err := ops[oi].run(p, s)
+			if last {
+				applies = s.applies
+			}
+			injected := s.failAt != 0
+			s.failAt = 0
+			check(s, hist, err, before, beforeIdx, injected)
+			if injected {
+				// the retry must bring everything back in step
+				before, beforeIdx = rootsFull(s)
+				hist = append(hist, ops[oi].name+" [retried]")
+				if err := ops[oi].run(p, s); err != nil {
+					// a retry that keeps failing is an availability problem, not judged here
+					continue
+				}
+				check(s, hist, nil, before, beforeIdx, false)
+			}
+		}
+		return applies
+	}
+	rec = func(path []int) {
+		if len(path) > 0 {
+			histories++
+			n := runPath(path, 0)
+			for k := 1; k <= n; k++ {
+				faultRuns++
+				runPath(path, k)
+			}
+		}
+		if len(path) == depth || c.NumViolations() > 30 {
+			return
+		}
+		for i := range ops {
+			rec(append(append([]int{}, path...), i))
+		}
+	}
+	rec(nil)
+	c.Set("secondary_histories", histories)
+	c.Set("secondary_fault_runs", faultRuns)
+	c.Set("secondary_steps", steps)
+	c.Set("secondary_depth", depth)
 }
 
 // ---- root-set commands at the FSM level ------------------------------------------------------------------------------
@@ -758,6 +979,7 @@ func sameSet(a map[string]bool, rs []cmdlib.RootSpec) bool {
 func Run(c *ev.Ctx) {
 	signingPhase(c)
 	managerPhase(c)
+	secondaryPhase(c)
 	fsmPhase(c)
 	c.Set("rule", "signing: every CSR of the SAN/identity grammar x every token through the real CAManager.AuthorizeAndSignCertificate (consul provider, real FSM as raft) against a reference verdict and an independent re-parse of the issued certificate; roots: every history (to manager_depth) of configuration updates/rotations/failed updates/leader failover through the real CAManager, a leaf signed and verified after every step; every CA command sequence (to fsm_max_depth) on the FSM")
 	c.Assume("certificate path validation is Go's crypto/x509; the reference identity parser splits the escaped path and unescapes each segment")
